@@ -23,6 +23,7 @@ func init() {
 		ruleR14b(c)
 		ruleRequestKeyIsLookedUp(c, "R14g")
 		ruleR14h(c, "R14h")
+		ruleR11a(c)
 	})
 	register("C16", propMeta{
 		Level: "other",
